@@ -6,7 +6,7 @@ import ast
 from ..model import FST, ENFA, NFA, DFA, EPS_TAG
 from . import names
 from .common import site_of
-from .flow import (own, Oblig, calls, events, deps_of, arg_deps, SELF, P, result_locs, receivers, DELTA_SYM, DELTA_EPS)
+from .flow import (code_nodes, own, Oblig, calls, events, deps_of, arg_deps, SELF, P, result_locs, receivers, DELTA_SYM, DELTA_EPS)
 
 OTHER = P("other_fst")
 EXPLANATION = (
@@ -82,7 +82,9 @@ def run(eng, rep, tier):
               bool(fns) and all(tag(OTHER, FI) in arg_deps(ev, 0) and tag(SELF, FI) not in arg_deps(ev, 0) for ev in fns),
               "final states come from the right operand only", "concatenate takes final states from the left operand", sc,
               site=site_of(prog, fc, fc.node))
-    adds = [ev for ev, _ in calls(sc, "add_transition", own=True, recv_locs=res)]
+    adds_ch = [(ev, ch) for ev, ch in calls(sc, "add_transition", own=True, recv_locs=res)]
+    adds = [ev for ev, _ in adds_ch]
+    chain_of = {id(ev): ch for ev, ch in adds_ch}
     bridge = [ev for ev in adds if tag(SELF, FI) in arg_deps(ev, 0) and tag(OTHER, ST) in arg_deps(ev, 2)]
     okb = bool(bridge) and all(ev.args[1].has_const() and ev.args[1].const == "epsilon" and ev.args[3].elem is None
                                for ev in bridge if len(ev.args) > 3)
@@ -92,8 +94,25 @@ def run(eng, rep, tier):
     for ev in bridge:
         from .flow import _path_to
         loops = [a for a in _path_to(ev.func.node, ev.node) if isinstance(a, ast.For)]     # in the helper, if extracted
-        zipped = [l for l in loops if isinstance(l.iter, ast.Call) and getattr(l.iter.func, "id", "") == "zip"]
-        prod = [l for l in loops if isinstance(l.iter, ast.Call) and ast.unparse(l.iter.func).endswith("product")]
+        iters = [l.iter for l in loops]
+        # a loop over a parameter of a private helper: what is iterated is the argument at the call site
+        ch = chain_of.get(id(ev), ())
+        if len(loops) == 1 and isinstance(loops[0].iter, ast.Name) and ch:
+            call = ch[-1].node
+            params = [a.arg for a in ev.func.node.args.posonlyargs + ev.func.node.args.args]
+            static = any(isinstance(d, ast.Name) and d.id == "staticmethod" for d in ev.func.node.decorator_list)
+            if isinstance(getattr(call, "func", None), ast.Attribute) and ev.func.cls is not None and not static:
+                params = params[1:]
+            amap = dict(zip(params, getattr(call, "args", [])))
+            amap.update({kw.arg: kw.value for kw in getattr(call, "keywords", []) if kw.arg})
+            arg = amap.get(loops[0].iter.id)
+            if isinstance(arg, (ast.GeneratorExp, ast.ListComp, ast.SetComp)):
+                iters = [g.iter for g in arg.generators]
+                loops = loops * len(arg.generators)        # one `for` clause per nesting level
+            elif arg is not None:
+                iters = [arg]
+        zipped = [i_ for i_ in iters if isinstance(i_, ast.Call) and getattr(i_.func, "id", "") == "zip"]
+        prod = [i_ for i_ in iters if isinstance(i_, ast.Call) and ast.unparse(i_.func).endswith("product")]
         if zipped:
             rep.violation("R1", "C16.2", fc.qname, "concat-bridge-every-pair",
                           "the bridges are built over zip(final states, start states): only pairwise bridges exist, not one "
@@ -116,51 +135,63 @@ def run(eng, rep, tier):
     for t_, role in ((tag(SELF, ST), "start"), (tag(SELF, FI), "final"), (tag(SELF, DE), "edges"), (P("input_word"), "input")):
         ob.decide("R1", "C16.3", ft, "translate-depends-on-" + role, t_ in yd, "outputs depend on " + role,
                   "translate does not depend on " + role, st_, site=site_of(prog, ft, ft.node))
-    pushes = [ev for ev in own(st_) if ev.kind == "write" and ev.wkind == "mutate:append" and ev.value is not None
-              and ev.value.items is not None and len(ev.value.items) == 3]
-    consume = [ev for ev in pushes if isinstance(ev.node, ast.Call) and isinstance(ev.node.args[0], ast.Tuple) and
-               isinstance(ev.node.args[0].elts[0], ast.Subscript) and isinstance(ev.node.args[0].elts[0].slice, ast.Slice)]
-    silent = [ev for ev in pushes if isinstance(ev.node, ast.Call) and isinstance(ev.node.args[0], ast.Tuple) and
-              isinstance(ev.node.args[0].elts[0], ast.Name) and ev not in consume and
-              tag(SELF, DE) in deps_of(ev.value)]
-    # the consumed sequence = the expression that is sliced in the consuming push; "under a non-empty test" = some branch
-    # fact on the path implies len(<that expression>) >= 1, whatever the local is called and however the test is spelt
-    from .flow import min_len
-    def nonempty_guarded(ev):
-        base = ast.unparse(ev.node.args[0].elts[0].value)
-        for text, pol, _names in ev.facts:
-            try:
-                e = ast.parse(text, mode="eval").body
-            except SyntaxError:
-                continue
-            if (min_len(e, pol, base) or 0) >= 1:
-                return True
-        return False
-    ob.decide("R1", "C16.3", ft, "consuming-move", bool(consume) and all(nonempty_guarded(ev) for ev in consume),
+    # configurations put on the worklist: 3-item values (remaining input, output so far, state) that are appended, or
+    # yielded by a private generator helper whose items are then pushed with extend
+    evs_ = own(st_)
+    slices = [ev for ev in evs_ if ev.kind == "slice" and ev.result is not None]
+    slice_locs = frozenset().union(*[ev.result.alias for ev in slices]) if slices else frozenset()
+
+    from dataclasses import replace as _replace
+
+    def _flat(v):
+        if v is not None and v.items is not None and v.only("tuple", "list") and 0 < len(v.items) <= 3:
+            out = []
+            for it in v.items:
+                out.extend(_flat(it) if (it.items is not None and it.only("tuple") and len(it.items) == 2) else [it])
+            return out
+        return [v]
+
+    def config_of(ev):
+        """the (remaining, output, state) triple put on the worklist, however it is nested: (r, o, s) or ((r, o), s)"""
+        v = ev.value
+        if v is None or v.items is None:
+            return None
+        if not ((ev.kind == "write" and ev.wkind in ("mutate:append", "mutate:appendleft")) or ev.kind == "yield"):
+            return None
+        leaves = _flat(v)
+        if len(leaves) == 3 and len(v.items) in (2, 3):
+            return _replace(v, items=tuple(leaves))
+        return None
+    pushes = [ev for ev in evs_ if config_of(ev) is not None]
+    # a consuming configuration carries a remainder that IS a slice made at that step; a silent one carries the popped
+    # remainder itself (which, around the loop, may of course alias slices made in earlier steps)
+    def _is_slice(av):
+        return bool(av.alias) and av.alias <= slice_locs
+    consume = [ev for ev in pushes if _is_slice(config_of(ev).items[0])]
+    silent = [ev for ev in pushes if not _is_slice(config_of(ev).items[0]) and tag(SELF, DE) in deps_of(config_of(ev))]
+    # the consumed sequence = what is sliced for a consuming configuration; "under a non-empty test" = some branch fact at
+    # the push implies len(<that sequence>) >= 1, whatever the local is called and however the test is spelt
+    from .flow import facts_imply_nonempty, facts_imply_empty
+    seqs = {ast.unparse(sv.node.value) for sv in slices if any(sv.result.alias & config_of(ev).items[0].alias for ev in consume)}
+    ob.decide("R1", "C16.3", ft, "consuming-move",
+              bool(consume) and all(any(facts_imply_nonempty(ev.facts, q) for q in seqs) for ev in consume),
               "a symbol move consumes the first remaining symbol (under a non-empty test)",
               "translate has no move that consumes the first remaining input symbol under a non-empty test", st_,
               site=site_of(prog, ft, ft.node))
     eps_lookup = any(isinstance(c, ast.Tuple) and len(c.elts) == 2 and isinstance(c.elts[1], ast.Constant)
-                     and c.elts[1].value == "epsilon" for c in ast.walk(ft.node))
+                     and c.elts[1].value == "epsilon" for fn_ in code_nodes(prog, ft) for c in ast.walk(fn_))
     ob.decide("R1", "C16.3", ft, "epsilon-move", bool(silent) and eps_lookup,
               "an epsilon move keeps the remaining input", "translate has no epsilon move that keeps the remaining input",
               st_, site=site_of(prog, ft, ft.node))
-    ys = [y for y in ast.walk(ft.node) if isinstance(y, ast.Yield)]
-    from .flow import _path_to, _membership, _atoms_of
-    seqs = {ast.unparse(ev.node.args[0].elts[0].value) for ev in consume}
+    # outputs: what translate itself yields (not a configuration)
+    outs = [ev for ev in st_.events if ev.kind == "yield" and config_of(ev) is None]
+    from .flow import _membership
 
-    def guarded(y):
-        """the yield sits under tests that hold only when the consumed sequence is empty and the state is final"""
-        atoms = {}
-        for a in _path_to(ft.node, y):
-            if isinstance(a, ast.If) and any(n is y for b in a.body for n in ast.walk(b)):
-                _atoms_of(a.test, atoms) if not isinstance(a.test, ast.BoolOp) or isinstance(a.test.op, ast.And) else None
-        empty = any((min_len(t_, False, q) or 0) >= 1 for t_ in atoms.values() for q in seqs)
-        final = any("final" in ast.unparse(t_) for t_ in atoms.values())
-        return empty and final
-    ob.decide("R1", "C16.3", ft, "yield-iff-consumed-and-final", bool(ys) and bool(seqs) and all(guarded(y) for y in ys),
+    def out_guarded(ev):
+        return any(facts_imply_empty(ev.facts, q) for q in seqs) and any("final" in f[0] and f[1] for f in ev.facts)
+    ob.decide("R1", "C16.3", ft, "yield-iff-consumed-and-final", bool(outs) and bool(seqs) and all(out_guarded(ev) for ev in outs),
               "an output is yielded only with empty remainder in a final state",
-              "translate yields without requiring (empty remainder and final state)", None, site=site_of(prog, ft, ft.node))
+              "translate yields without requiring (empty remainder and final state)", st_, site=site_of(prog, ft, ft.node))
     # mark at pop: in the worklist loop, `if <config> in V: continue` is followed, before anything is pushed, by a
     # statement that records the configuration in the same V
     mark_ok = False
